@@ -22,13 +22,21 @@ The Rust function has `debug_assert!(k < w.count_ones())`; every modelled call s
 with exactly that comparison, so the out-of-domain value (64 here) is never observed. -/
 def selectInWord (w k : Nat) : Nat := selectInWordAux 64 w k 0
 
+/-- `count_ones` of a 64-bit word, computed by halving (`popc w = popcount 64 w`, see
+`popc_eq_popcount` in `HintedLemmas.lean`; this form only exists because it runs faster) -/
+def popcAux : Nat → Nat → Nat → Nat
+  | 0, _, acc => acc
+  | fuel + 1, w, acc => if w = 0 then acc else popcAux fuel (w / 2) (acc + w % 2)
+
+def popc (w : Nat) : Nat := popcAux 64 w 0
+
 /-- the word the hinted loops look at: `w` for ones, `!w` for zeros -/
 @[inline] def polWord (zero : Bool) (w : Nat) : Nat := if zero then notW 64 w else w
 
 /-- the `loop { … }` of `select_hinted` / `select_zero_hinted`: `get_unchecked` of the next word is an
 unchecked read -/
 def selectHintedLoop (zero : Bool) (ws : Array Nat) (wordIndex word residual : Nat) : Out Nat :=
-  let bitCount := popcount 64 word
+  let bitCount := popc word
   if residual < bitCount then
     .ok (wordIndex * 64 + selectInWord word residual)
   else
